@@ -555,12 +555,12 @@ def gen_tversky(rng, tier):
         tshape = {"same": shape, "single": [N, 1] + sp, "two": [N, 2] + sp, "labels": [N] + sp}[tform]
         wk = rng.choice([None, None, "full", "n1", "nosp", "11", "badchan"])
         ab = rng.choice([(None, None), (0.5, 0.5), (0.3, 0.7), (0.7, None), (None, 0.25), (1.0, 1.0), (0.0, 1.0)])
-        which = "tversky_loss" if rng.random() < 0.12 else "tversky_index"
+        which = "tversky_loss" if rng.random() < 0.4 else "tversky_index"
         c = {"loss": which, "shape": shape, "yshape": tshape, "mask": wk, "mdtype": rng.choice(["bool", "float"]),
              "seed": _seed(rng), "vkind": rng.choice(["prob", "binary", "uniform"]),
              "ykind": rng.choice(["binary", "binary", "prob"]), "eps": rng.choice([1e-15, 1e-15, 2.0 ** -10, 1.0]),
              "alpha": ab[0], "beta": ab[1], "binarize": rng.random() < 0.3, "red": rng.choice(REDS + [None]),
-             "gamma": rng.choice([None, 1.0, 2.0]), "opt": True}
+             "gamma": rng.choice([None, None, 0.0, 1.0, 2.0, 3.0, 1.5, 2.5, 0.5]), "opt": True}
         yield c
 
 
@@ -598,8 +598,18 @@ def line_tversky(c):
     a, b = _ab(c)      # tversky_index @249-254 (Python glue)
     red = c["red"] or "mean"
     if c["loss"] == "tversky_loss":
+        tbl = []
+        g = c["gamma"]
+        if g is not None and g > 1 and g != int(g):
+            # non-integral focal exponent: t -> t**gamma is tabulated at the values 1 - TI (transcendental)
+            try:
+                t = 1 - L.tversky_index(x, y, weight=w, alpha=c["alpha"], beta=c["beta"], epsilon=c["eps"],
+                                        binarize=c["binarize"], reduction="none").double().flatten()
+                tbl = sorted(set((float(v), float(v) ** g) for v in t.tolist()))
+            except Exception:
+                tbl = []
         return (f"loss.tversky_loss {red} {T(x)} {T(y)} {OT(w)} {proto.fr(a)} {proto.fr(b)} {proto.fr(c['eps'])} "
-                f"{OR(c['gamma'])}")
+                f"{1 if c['binarize'] else 0} {OR(g)} {_table(tbl)}")
     return (f"loss.tversky_index {red} {T(x)} {T(y)} {OT(w)} {proto.fr(a)} {proto.fr(b)} {proto.fr(c['eps'])} "
             f"{1 if c['binarize'] else 0}")
 
@@ -664,8 +674,8 @@ def gen_mi(rng, tier):
 
 
 def _mi_normalized(c):
-    # losses/image.py: NMI.__init__ @324-345 does not pass normalized=True to MI.__init__ -> plain MI
-    return c["loss"] == "nmi_loss"
+    # losses/image.py: NMI.__init__ passes normalized=True to MI.__init__ (fix da87845)
+    return c["loss"] in ("nmi_loss", "NMI")
 
 
 def impl_mi(c):
@@ -713,7 +723,7 @@ STREAMS = [
            doc="dice_score / dice_loss / Dice: weights of every broadcastable shape, eps (incl. 0), reductions"),
     Stream("tversky", gen_tversky, impl_tversky, line_tversky, cmp_tversky, nontrivial=_nontrivial,
            doc="tversky_index: alpha/beta defaults, binarize, target formats (same/single/two-channel/labels), weight "
-               "formats; tversky_loss (always TypeError in code and model)"),
+               "formats; tversky_loss = (1 - TI)^gamma with gamma None/0/1/integral/non-integral (tabulated)/< 1 (rejected)"),
     Stream("mi", gen_mi, impl_mi, line_mi, cmp_mi, nontrivial=_nontrivial,
            doc="mi_loss / nmi_loss / MI / NMI: bins, vmin/vmax given or derived, masks; exp/log tabulated"),
 ]
@@ -753,7 +763,7 @@ OVERLAP = ("dice_score", "dice_loss", "tversky_index", "tversky_loss")
 
 
 def _known_exc(name, e):
-    """map the two defects that hit every call of a function to their specific keys."""
+    """map the (since repaired, commit 830fa90) defect that hit every call of tversky_loss to its specific key."""
     if name == "tversky_loss" and isinstance(e, TypeError) and "gamma" in str(e):
         return ("C16:tversky_loss:gamma-typeerror",
                 f"tversky_loss raises for every input: TypeError: {e}")
@@ -838,13 +848,14 @@ def check_affine(c):
 
 
 # ---- masks: every documented shape accepted, masked-out samples ignored, mean over the masked region
-MASKED = PW_FN + ["ncc_loss", "lcc_loss", "wlcc_loss", "dice_score", "dice_loss", "tversky_index", "mi_loss", "nmi_loss"]
+MASKED = PW_FN + ["ncc_loss", "lcc_loss", "wlcc_loss", "dice_score", "dice_loss", "tversky_index", "tversky_loss",
+                  "mi_loss", "nmi_loss"]
 
 
 def _documented_masks(name, shape):
     if name in ("mi_loss", "nmi_loss"):
         return ["n1", "11"]          # (1|N, 1, ..., X); same shape as input for C = 1
-    if name == "tversky_index":
+    if name in ("tversky_index", "tversky_loss"):
         return ["full", "n1", "nosp"]    # (N, ..., X) or (N, 1|C, ..., X)
     return MASK_KINDS
 
@@ -866,8 +877,10 @@ def check_mask(c):
         if name == "ncc_loss":
             return ("C16:ncc_loss:mask-shape", f"ncc_loss(mask of shape {list(m.shape)} for images {shape}) raises "
                     f"{type(e).__name__}: {e}")
-        if name == "tversky_index" and shape[1] == 1:
-            return ("C16:tversky_index:weight-binary", f"tversky_index(binary prediction {shape}, weight "
+        if _known_exc(name, e):
+            return _known_exc(name, e)
+        if name in ("tversky_index", "tversky_loss") and shape[1] == 1:
+            return ("C16:tversky_index:weight-binary", f"{name}(binary prediction {shape}, weight "
                     f"{list(m.shape)}) raises {type(e).__name__}: {e}")
         return (f"C16:{name}:mask-shape:{kind}", f"{name}(mask {list(m.shape)} for images {shape}) raises "
                 f"{type(e).__name__}: {e}")
@@ -924,8 +937,8 @@ def check_reductions(c):
     (x, y), r = _data(c, kind="prob" if name in OVERLAP else None)
     kw = KW.get(name, {})
     m = None
-    if c["mask"] and name != "ncc_loss" and not (name.startswith("tversky") and (shape[1] == 1 or c["mask"] in ("1c", "11"))):
-        m = _mask(r, shape, c["mask"], c["mdtype"])   # (ncc / binary tversky reject every mask: oracle `mask`)
+    if c["mask"] and name != "ncc_loss" and not (name.startswith("tversky") and c["mask"] in ("1c", "11")):
+        m = _mask(r, shape, c["mask"], c["mdtype"])   # (ncc rejects every mask: oracle `mask`; tversky documents (N, ...))
     try:
         none = _call(name, x, y, mask=m, red="none", **kw)
         mean = _call(name, x, y, mask=m, red="mean", **kw)
@@ -962,7 +975,7 @@ def check_norm(c):
 # ---- overlap facts
 def check_overlap(c):
     (x, y), r = _data(c, kind="binary")
-    w = _mask(r, c["shape"], c["mask"], c["mdtype"]) if c["mask"] and c["shape"][1] > 1 else None
+    w = _mask(r, c["shape"], c["mask"], c["mdtype"]) if c["mask"] else None
     d_same = L.dice_score(x, x.clone(), weight=w, reduction="none")
     if _maxabs(d_same - 1) > 1e-6:
         return ("C16:dice:identical", f"dice_score(x,x) = {d_same.flatten().tolist()}")
@@ -985,6 +998,16 @@ def check_overlap(c):
         return _known_exc("tversky_loss", e) or ("C16:tversky_loss:exception", f"{type(e).__name__}: {e}")
     if _maxabs(tl - (1 - t)) > 1e-6:
         return ("C16:tversky_loss:one-minus-index", "tversky_loss != 1 - tversky_index")
+    if _maxabs(tl - dl) > 1e-5:
+        return ("C16:tversky_loss:half-is-dice-loss", "tversky_loss(alpha=beta=0.5) != dice_loss on binary inputs")
+    for g in (2.0, 3.0):
+        tg = L.tversky_loss(x, y, weight=w, alpha=0.3, beta=0.7, gamma=g, reduction="none")
+        t1 = L.tversky_loss(x, y, weight=w, alpha=0.3, beta=0.7, reduction="none")
+        if _maxabs(tg - t1 ** g) > 1e-5:
+            return ("C16:tversky_loss:focal", f"tversky_loss(gamma={g}) != (1 - TI)^gamma")
+    same = L.tversky_loss(x, x.clone(), weight=w, alpha=0.3, beta=0.7, gamma=2.0, reduction="none")
+    if _maxabs(same) > 1e-6:
+        return ("C16:tversky_loss:identical", f"tversky_loss(x, x) = {same.flatten().tolist()}")
     return None
 
 
@@ -1040,8 +1063,9 @@ def _gen_simple(names, quick, thorough, search=None, masks=(None,), **extra):
     return gen
 
 
-SYM = PW_FN + ["ncc_loss", "lcc_loss", "wlcc_loss", "dice_score", "dice_loss", "tversky_index", "mi_loss", "nmi_loss"]
-IDENT = SYM + ["tversky_loss"]
+SYM = PW_FN + ["ncc_loss", "lcc_loss", "wlcc_loss", "dice_score", "dice_loss", "tversky_index", "tversky_loss",
+              "mi_loss", "nmi_loss"]
+IDENT = SYM
 
 ORACLES = [
     Oracle("identical", _gen_simple(IDENT, 3, 60, 15), check_identical, nontrivial=_nontrivial,
@@ -1060,7 +1084,8 @@ ORACLES = [
     Oracle("norm", _gen_simple(PW_FN, 3, 60, 15, masks=[None] + MASK_KINDS, norm=(2.0, 0.37, 12.5)), check_norm,
            nontrivial=_nontrivial, doc="loss(norm=c) == loss / c for every reduction"),
     Oracle("overlap", _gen_simple(["overlap"], 12, 300, 60, masks=[None, "full", "n1"]), check_overlap,
-           nontrivial=_nontrivial, doc="dice/tversky: identical binary = 1, symmetric, tversky(1/2,1/2) = dice, losses = 1 - score"),
+           nontrivial=_nontrivial, doc="dice/tversky: identical binary = 1, symmetric, tversky(1/2,1/2) = dice (index and loss), losses = 1 - score, "
+                                   "focal tversky_loss(gamma) = (1 - TI)^gamma"),
     Oracle("modules", _gen_simple(["modules"], 6, 100, 30, masks=[None, "n1", "11"]), check_modules,
            nontrivial=_nontrivial, doc="losses.image classes == functional forms; NMI within its documented range"),
 ]
